@@ -80,6 +80,9 @@ type PageGen struct {
 	MarkMode int
 	// DupAttrs: now and then an attribute is written twice on one element (the parser keeps both)
 	DupAttrs bool
+	// MathVoid: paragraphs and table cells now and then hold a MathML element named like a void
+	// HTML element (with children, which only foreign content allows)
+	MathVoid bool
 	// RepeatMedia: a media URL is now and then one the page has used before (the same picture as
 	// mast and in the body, the same poster twice)
 	RepeatMedia bool
@@ -268,7 +271,17 @@ func (g *PageGen) linkURL() string {
 }
 
 func (g *PageGen) para() string {
+	if g.MathVoid && g.R.Chance(12) {
+		return "<p" + g.deco() + ">" + g.inline(g.R.Range(10, 30), 0) + " " + g.mathVoid() + " " + g.inline(g.R.Range(8, 30), 0) + "</p>\n"
+	}
 	return "<p" + g.deco() + ">" + g.inline(g.R.Range(18, 60), 0) + "</p>\n"
+}
+
+// mathVoid: running text inside a MathML element that carries the name of a void HTML element
+// (only in foreign content can such an element have children), or inside an ordinary MathML element
+func (g *PageGen) mathVoid() string {
+	v := g.R.Pick("wbr", "area", "col", "source", "track", "param", "mi", "mtext")
+	return "<math><" + v + ">" + g.words(g.R.Range(1, 5)) + "</" + v + "></math>"
 }
 func (g *PageGen) shortPara() string {
 	return "<p" + g.deco() + ">" + g.inline(g.R.Range(1, 6), 0) + "</p>\n"
@@ -435,6 +448,8 @@ func (g *PageGen) table(data bool) string {
 			}
 			sb.WriteString("<" + cell + g.deco() + ">")
 			switch c := g.R.Intn(14); {
+			case g.MathVoid && c < 8 && g.R.Chance(10):
+				sb.WriteString(g.words(1) + " " + g.mathVoid() + " " + g.words(1))
 			case c == 12:
 				// a cell without any output of its own: a comment, a script, a hidden element or nothing
 				sb.WriteString(g.R.Pick("<!-- "+g.word()+" -->", "<script>var "+g.word()+"</script>", `<span hidden>`+g.word()+`</span>`, "", " ", `<style>.`+g.word()+`{}</style>`))
